@@ -156,8 +156,12 @@ package auth
 //@ func (BucketPolicyAccessType) Validate
 //@   pure
 //@   ensures {C14} [allow-or-deny] err == nil <==> (bpat == BucketPolicyAccessTypeAllow || bpat == BucketPolicyAccessTypeDeny)
+// A principal set is accepted only if it is exactly {"*"}, or names no wildcard and every named account was looked up
+// and exists.
 //@ func (Principals) Validate
 //@   pure
+//@   ensures {C14} [the-wildcard-stands-alone] err == nil && old(in("*", p)) ==> old(len(p)) == 1
+//@   at-return {C14} [named-accounts-were-looked-up-and-exist] when err == nil && !old(in("*", p)) :: ensures called("auth.CheckIfAccountsExist") && result("auth.CheckIfAccountsExist", 1) == nil && len(result("auth.CheckIfAccountsExist", 0)) == 0
 //@ func (Resources) ContainsObjectPattern
 //@   pure
 //@ func (Resources) ContainsBucketPattern
